@@ -1,7 +1,7 @@
 from . import COMMON_TB, NOTE
 
 PROP = {
-    "modules": ["Proofs.C05"],
+    "modules": ["Proofs.C05", "Proofs.C05E2E", "Proofs.C05Spell"],
     "streams": [{"name": "scan"}, {"name": "val", "shards": 2}, {"name": "verbatim"}],
     "rule": "scan: every string of length<=5 (quick) / 6 (thorough) over {{ }} % - \" space newline a, harvested test "
             "templates and their mutants, random bytes / UTF-8 / delimiter-dense sources up to 64 KiB; a case is "
@@ -17,7 +17,20 @@ TEXT = {
               '(text_renders_itself), a raw body is emitted as the concatenation of its token sources whatever it contains '
               '(raw_verbatim, raw_body_kept), a comment body contributes nothing and is never parsed as an expression '
               '(comment_body_skipped), a string value is written as one write of its bytes without escaping (string_value_exact, '
-              'bytes/drop variants), nil prints nothing. Ties: the tokenizer model is compared with parser.Scan on exhaustive '
+              'bytes/drop variants), nil prints nothing. End to end, about the whole pipeline `run` (tokenizer, block parser, '
+              'compiler, renderer, fault-free writer) for every value layer, configuration, file system, start line and '
+              'environment: a source in which neither configured opening delimiter occurs renders to exactly itself, the empty '
+              'source included (source_without_open_delim_renders_itself); `run` is the tokenizer followed by `runTokens` '
+              '(run_eq_runTokens in Proofs.E2ERun), and on a token list raw-tag, body, endraw-tag `runTokens` returns exactly the '
+              'concatenated sources of the body tokens (raw_block_renders_body_sources), on comment-tag, body, endcomment-tag it '
+              'returns the empty output and never an error whatever the body tokens are (comment_block_renders_nothing), and '
+              'deleting a whole comment block after any prefix the parser leaves outside comment/raw changes nothing '
+              '(comment_block_erased); the token-level statements assume that no object token of the body has arguments outside '
+              'the expression-lexer model (negative-zero literal; the model answers `unmodelled` there). From source bytes, for every '
+              'delimiter set satisfying GoodDelims and every body satisfying the decidable predicate Clean (C19, scan_spell): the '
+              'source `TL raw TR body TL endraw TR` renders to exactly the bytes of the body as written '
+              '(raw_source_renders_body) and `TL comment TR body TL endcomment TR` renders to nothing, never an error '
+              '(comment_source_renders_nothing). Ties: the tokenizer model is compared with parser.Scan on exhaustive '
               'small strings and random/64KiB inputs; printed values with the real writeObject; the `verbatim` stream renders '
               'text / raw / comment / string-value templates on the real engine and checks byte equality with the source pieces; '
               'the partition/line oracle is evaluated on the real tokens.'),
